@@ -109,13 +109,15 @@ class _Helper:
             isinstance(d, ast.Name) and d.id == 'staticmethod' for d in node.decorator_list)
 
 
-def _eligible_def(fn):
+def _eligible_def(fn, allow_yield=False):
     if fn.args.vararg or fn.args.kwarg:
         return False
     if any(not (isinstance(d, ast.Name) and d.id == 'staticmethod') for d in fn.decorator_list):
         return False
     for n in ast.walk(fn):
         if n is fn:
+            continue
+        if allow_yield and isinstance(n, (ast.Yield, ast.YieldFrom)):
             continue
         if isinstance(n, (ast.Yield, ast.YieldFrom, ast.Await, ast.Global, ast.Nonlocal, ast.FunctionDef,
                           ast.AsyncFunctionDef, ast.ClassDef)):
@@ -622,10 +624,90 @@ def _expand_class_local_duplicates(trees, anchored_owner, resolve=None):
     return done
 
 
+def _expand_generator_delegation(trees, keep):
+    """`yield from gen(args)` as a statement, with `gen` a generator function of the package that is defined once (public
+    or private, module level or method called on self): the statement is replaced by the generator's body with its
+    parameters bound (its yields become yields of the host, a `return` in tail position ends the delegation).  Equivalent
+    for plain iteration protocols (no send/throw into the delegate, no return value used).  The definition stays.
+    Free global names of the generator's body must be visible in the host module as well."""
+    defs = {}
+    modglobals = {}
+    for mod, tree in trees.items():
+        g = set()
+        for st in tree.body:
+            if isinstance(st, (ast.FunctionDef, ast.ClassDef)):
+                g.add(st.name)
+            elif isinstance(st, ast.Assign):
+                g |= {t.id for t in st.targets if isinstance(t, ast.Name)}
+            elif isinstance(st, (ast.Import, ast.ImportFrom)):
+                g |= {(a.asname or a.name).split('.')[0] for a in st.names}
+        modglobals[mod] = g
+        for st in tree.body:
+            if isinstance(st, ast.FunctionDef):
+                defs.setdefault(st.name, []).append((_Helper(st, None, mod), mod))
+            elif isinstance(st, ast.ClassDef):
+                for m in st.body:
+                    if isinstance(m, ast.FunctionDef):
+                        defs.setdefault(m.name, []).append((_Helper(m, st, mod), mod))
+    cands = {}
+    for nm, lst in defs.items():
+        if len(lst) != 1 or nm in keep:
+            continue
+        h, mod = lst[0]
+        fn = h.node
+        if not any(isinstance(x, (ast.Yield, ast.YieldFrom)) for x in ast.walk(fn)) or not _eligible_def(fn, allow_yield=True):
+            continue
+        if any(isinstance(x, ast.Return) and x.value is not None for x in ast.walk(fn)):
+            continue
+        cands[nm] = (h, mod)
+    done = []
+    import builtins
+    for mod, tree in trees.items():
+        for host in [n for n in ast.walk(tree) if isinstance(n, ast.FunctionDef)]:
+            for parent in ast.walk(host):
+                for fld in ('body', 'orelse', 'finalbody'):
+                    body = getattr(parent, fld, None)
+                    if not (isinstance(body, list) and body and isinstance(body[0], ast.stmt)):
+                        continue
+                    out = []
+                    for st in body:
+                        rep = None
+                        if isinstance(st, ast.Expr) and isinstance(st.value, ast.YieldFrom) and isinstance(st.value.value, ast.Call):
+                            call = st.value.value
+                            nm = _call_name(call)
+                            if nm in cands and cands[nm][0].node is not host:
+                                h, hmod = cands[nm]
+                                free = {x.id for x in ast.walk(h.node) if isinstance(x, ast.Name) and isinstance(x.ctx, ast.Load)}
+                                local = {x.id for x in ast.walk(h.node) if isinstance(x, ast.Name) and isinstance(x.ctx, ast.Store)} | \
+                                    set(h.params) | set(h.kwonly)
+                                need = {x for x in free - local if x in modglobals[hmod]}
+                                fake = ast.copy_location(ast.Expr(value=call), st)
+                                rep = _instantiate(h, call, 'expr', fake)
+                                if rep is not None and hmod != mod:
+                                    # names of the delegate's module that its body uses are made visible in the host module
+                                    # of the analysed form (`from .<module> import <name>`)
+                                    missing = sorted(need - modglobals[mod])
+                                    if missing:
+                                        imp = ast.ImportFrom(module=hmod, names=[ast.alias(name=x, asname=None) for x in missing], level=1)
+                                        pos = 1 if (tree.body and isinstance(tree.body[0], ast.Expr) and
+                                                    isinstance(tree.body[0].value, ast.Constant)) else 0
+                                        tree.body.insert(pos, ast.copy_location(imp, tree.body[0]))
+                                        modglobals[mod] |= set(missing)
+                        if rep is not None:
+                            out.extend(rep or [ast.copy_location(ast.Pass(), st)])
+                            done.append(_call_name(st.value.value))
+                        else:
+                            out.append(st)
+                    setattr(parent, fld, out)
+        ast.fix_missing_locations(tree)
+    return sorted(set(done))
+
+
 def expand(trees, keep=frozenset(), anchored_owner=None, resolve=None):
     """trees: {module name: ast.Module}, modified in place.  Returns the sorted list of
     helpers that were inlined (and whose definitions were removed)."""
     inlined = list(_expand_expr_helpers(trees, keep))
+    inlined.extend(x for x in _expand_generator_delegation(trees, keep) if x not in inlined)
     if anchored_owner is not None:
         inlined.extend(x for x in _expand_class_local_duplicates(trees, anchored_owner, resolve) if x not in inlined)
     _hoist_nested_helper_calls(trees, keep)
